@@ -107,8 +107,21 @@ impl Rng {
         Rng::new(a ^ tag.wrapping_mul(0x9E37_79B9_7F4A_7C15))
     }
     pub fn uuid(&mut self) -> String {
-        let a = self.next();
-        let b = self.next();
+        let mut a = self.next();
+        let mut b = self.next();
+        // now and then a UUID with a remarkable shape (all zero, all ones, mostly zero)
+        match a % 211 {
+            0 => {
+                a = 0;
+                b = 0;
+            }
+            1 => {
+                a = u64::MAX;
+                b = u64::MAX;
+            }
+            2 => a = 0,
+            _ => {}
+        }
         let h = format!("{:016x}{:016x}", a, b);
         format!(
             "{}-{}-{}-{}-{}",
